@@ -1102,3 +1102,149 @@ def rule_D9b(repo: Repo) -> RuleResult:
         res.ok(repo.func("groupby.core", "GroupBy._resolve_mask_argument_into_chunks"), repo.func("groupby.core", "GroupBy._resolve_mask_argument_into_chunks").node,
                "no scatter conversion of a mask in core.py / numba.py / emas.py", "", nontrivial=False)
     return res
+
+
+# ------------------------------------------------------------------------------------------------ P25 (group-sorted layout)
+
+def rule_P25(repo: Repo) -> RuleResult:
+    """Group-sorted layout.  self._group_sort_indexer lays the rows out group after group in SORTED-LABEL order.  The per-group
+    row counts (self.ikey_count, self.count_ikey(..)) are in CODE order (first appearance).  Wherever a method that uses the
+    group-sorted layout turns counts into sizes - np.cumsum / np.repeat / np.array_split / the counting-sort kernel - the counts
+    must have been permuted by self._labels_argsort on that path (or the path established that no sorting applies, where the
+    two orders coincide).  Otherwise groups are cut with their neighbours' sizes as soon as first appearance is not ascending."""
+    res = RuleResult("P25", "group-sorted layout: counts are permuted into label order (self._labels_argsort) before they size the groups")
+    core = repo.mod("groupby.core")
+    SIZERS = ("cumsum", "repeat", "array_split", "_build_group_sorted_indexer_numba")
+    n = 0
+    for f in core.functions.values():
+        if f.cls != "GroupBy" or f.is_njit:
+            continue
+        txt = norm(f.node)
+        if "_group_sort_indexer" not in txt and "_build_group_sorted_indexer_numba" not in txt:
+            continue
+        if "ikey_count" not in txt and "count_ikey" not in txt:
+            continue
+
+        def is_code_counts(e: ast.AST) -> bool:
+            c = attr_chain(e)
+            if c == ("self", "ikey_count"):
+                return True
+            return isinstance(e, ast.Call) and attr_chain(e.func) == ("self", "count_ikey")
+
+        def permuted(e: ast.AST) -> bool:
+            return isinstance(e, ast.Subscript) and attr_chain(e.slice) == ("self", "_labels_argsort")
+
+        flags = {s.targets[0].id for s in walk_no_nested(f.node) if isinstance(s, ast.Assign) and len(s.targets) == 1
+                 and isinstance(s.targets[0], ast.Name) and "_index_is_sorted" in norm(s.value) and "_sort" in norm(s.value)
+                 and isinstance(s.value, ast.BoolOp)}
+        for p in enumerate_paths(f.node.body, limit=60000):
+            if p.exit == "raise" or infeasible(p):
+                continue
+            no_sort = any(isinstance(t, ast.Name) and t.id in flags and pol is False for t, pol in p.conds)
+            state: Dict[str, str] = {}
+
+            def kind(e: ast.AST) -> Optional[str]:
+                if is_code_counts(e):
+                    return "code"
+                if isinstance(e, ast.Name):
+                    return state.get(e.id)
+                if permuted(e):
+                    k = kind(e.value)
+                    return "label" if k else None
+                if isinstance(e, ast.Subscript):
+                    return None
+                return None
+            for st in p.stmts:
+                # sizing uses inside this statement
+                for c in ast.walk(st):
+                    if isinstance(c, ast.Call) and (call_name(c) or norm(c.func)).split(".")[-1] in SIZERS:
+                        args = list(c.args) + [k.value for k in c.keywords]
+                        if isinstance(c.func, ast.Attribute) and (call_name(c) or norm(c.func)).split(".")[-1] in ("cumsum", "repeat") \
+                                and norm(c.func.value) not in ("np", "numpy"):
+                            args.append(c.func.value)           # counts.cumsum()
+                        for a in args:
+                            for x in ast.walk(a):
+                                if permuted(x):
+                                    continue
+                                k = kind(x) if isinstance(x, (ast.Name, ast.Attribute, ast.Call)) else None
+                                inside_perm = any(permuted(y) and any(z is x for z in ast.walk(y.value)) for y in ast.walk(a))
+                                if k == "code" and not inside_perm and not no_sort:
+                                    n += 1
+                                    res.bad(f, c, f"{f.qualname}: {norm(c)[:80]}",
+                                            f"per-group counts in code (first-appearance) order ({norm(x)}) size the groups of the group-sorted "
+                                            f"layout, which is in sorted-label order: without [self._labels_argsort] the groups are cut with "
+                                            f"their neighbours' sizes whenever first appearance is not ascending", path=p.describe())
+                                elif k is not None or (is_code_counts(x) and inside_perm):
+                                    n += 1
+                                    res.ok(f, c, f"{f.qualname}: {norm(c)[:80]}", "counts in label order" if not no_sort else "no sorting on this path", nontrivial=False)
+                if isinstance(st, ast.Assign) and len(st.targets) == 1 and isinstance(st.targets[0], ast.Name):
+                    k = kind(st.value)
+                    if k:
+                        state[st.targets[0].id] = k
+                    else:
+                        state.pop(st.targets[0].id, None)
+    seen, uniq = set(), []
+    for v in res.violations:
+        if v.key() not in seen:
+            seen.add(v.key()); uniq.append(v)
+    res.violations = uniq
+    seen_i, uniq_i = set(), []
+    for i in res.instances:
+        k = (i.verdict, i.function, i.construct)
+        if k not in seen_i:
+            seen_i.add(k); uniq_i.append(i)
+    res.instances = uniq_i
+    if len([i for i in res.instances]) < 4:
+        raise AnalysisError(f"P25: only {len(res.instances)} sizing uses of group counts found in the group-sorted-layout methods (floor 4)")
+    return res
+
+
+# ------------------------------------------------------------------------------------------------ P26 (mean by floor division)
+
+def rule_P26(repo: Repo) -> RuleResult:
+    """A mean over NumPy arrays is never an integer floor division by the group counts.  NumPy's `sum // count` with a zero
+    count is 0 (plus a warning), not a null: the mean of an empty / all-null / fully masked group of timestamps becomes the
+    epoch (1970-01-01) instead of NaT.  True division gives NaN, which the cast turns into NaT.  (pandas Series `//` maps a zero
+    divisor to NaN, so mean_from_sum_count, which is handed Series, is checked for exactly that: its operands must be Series.)"""
+    res = RuleResult("P26", "group means over NumPy arrays use true division by the counts (a zero count must give a null, not 0)")
+    nb = repo.mod("groupby.numba")
+    n = 0
+    for f in nb.functions.values():
+        if f.is_njit:
+            continue
+        counts: Set[str] = set()
+        for s in walk_no_nested(f.node):
+            if isinstance(s, ast.Assign) and isinstance(s.targets[0], ast.Tuple) and len(s.targets[0].elts) == 2 \
+                    and isinstance(s.targets[0].elts[1], ast.Name) and isinstance(s.value, ast.Call) \
+                    and ((call_name(s.value) or "").startswith("group_") or (call_name(s.value) or "") in ("_group_func_wrap", "_apply_group_method_single_chunk")):
+                counts.add(s.targets[0].elts[1].id)
+        if not counts:
+            continue
+        for b in walk_no_nested(f.node):
+            if isinstance(b, ast.BinOp) and isinstance(b.op, (ast.Div, ast.FloorDiv)) and _names(b.right) & counts:
+                n += 1
+                if isinstance(b.op, ast.FloorDiv):
+                    res.bad(f, b, f"{f.qualname}: {norm(b)}",
+                            "NumPy integer floor division by the group counts: a group with a zero count (empty, all-null or fully masked) gets "
+                            "0 - the epoch for timestamps - instead of a null; the single-pass answer no longer equals the per-group definition")
+                else:
+                    res.ok(f, b, f"{f.qualname}: {norm(b)}", "true division: a zero count gives NaN / NaT")
+        for c in walk_no_nested(f.node):
+            if isinstance(c, ast.Call) and norm(c.func) in ("np.true_divide", "np.divide", "numpy.true_divide", "numpy.divide") \
+                    and len(c.args) >= 2 and _names(c.args[1]) & counts:
+                n += 1
+                res.ok(f, c, f"{f.qualname}: {norm(c)}", "true division: a zero count gives NaN / NaT")
+            if isinstance(c, ast.Call) and norm(c.func) in ("np.floor_divide", "numpy.floor_divide") and len(c.args) >= 2 and _names(c.args[1]) & counts:
+                n += 1
+                res.bad(f, c, f"{f.qualname}: {norm(c)}", "NumPy integer floor division by the group counts: a zero count gives 0 (the epoch), not a null")
+    if n < 1:
+        raise AnalysisError("P26: no division of group sums by group counts found in numba.py (floor 1)")
+    m = repo.func("util", "mean_from_sum_count")
+    ann = {a.arg: norm(a.annotation) if a.annotation is not None else "" for a in m.node.args.args}
+    fd = [b for b in walk_no_nested(m.node) if isinstance(b, ast.BinOp) and isinstance(b.op, ast.FloorDiv)]
+    for b in fd:
+        if all("Series" in ann.get(x, "") for x in _names(b.right) if x in ann) and (_names(b.right) & set(ann)):
+            res.ok(m, b, f"mean_from_sum_count: {norm(b)}", "pandas Series floor division: a zero divisor gives NaN -> NaT", nontrivial=False)
+        else:
+            res.bad(m, b, f"mean_from_sum_count: {norm(b)}", "floor division by counts that are not declared pandas Series: NumPy semantics give 0 for a zero count")
+    return res
